@@ -125,6 +125,9 @@ pub struct InputDoc {
     pub body: Body,
     /// put each top-level item / attribute on its own line
     pub multiline: bool,
+    /// `where ...` text ("" = none), placed where the grammar wants it for the body's style
+    #[serde(default)]
+    pub where_clause: String,
 }
 
 pub struct Renderer {
@@ -316,11 +319,16 @@ pub fn render(doc: &mut InputDoc) -> String {
         for (i, g) in doc.generics.iter_mut().enumerate() {
             r.attrs(&mut g.attrs);
             match g.kind.as_str() {
+                // `bounds` is the text after the name: bounds, or `= default` when it starts with '='
                 "lifetime" => {
                     let a = r.pos();
                     r.push("'");
                     r.push(&g.name.clone());
                     g.r_name = (a, r.pos());
+                    if !g.bounds.is_empty() {
+                        r.push(": ");
+                        r.push(&g.bounds.clone());
+                    }
                 }
                 "const" => {
                     r.push("const ");
@@ -328,12 +336,19 @@ pub fn render(doc: &mut InputDoc) -> String {
                     r.push(&g.name.clone());
                     g.r_name = (a, r.pos());
                     r.push(": usize");
+                    if !g.bounds.is_empty() {
+                        r.push(" ");
+                        r.push(&g.bounds.clone());
+                    }
                 }
                 _ => {
                     let a = r.pos();
                     r.push(&g.name.clone());
                     g.r_name = (a, r.pos());
-                    if !g.bounds.is_empty() {
+                    if g.bounds.starts_with('=') {
+                        r.push(" ");
+                        r.push(&g.bounds.clone());
+                    } else if !g.bounds.is_empty() {
                         r.push(": ");
                         r.push(&g.bounds.clone());
                     }
@@ -345,11 +360,21 @@ pub fn render(doc: &mut InputDoc) -> String {
         }
         r.push(">");
     }
+    let wh = doc.where_clause.clone();
+    let tuple_struct = matches!(&doc.body, Body::Struct(FieldsDoc::Tuple(_)));
+    if !wh.is_empty() && !tuple_struct {
+        r.push(" ");
+        r.push(&wh);
+    }
     match &mut doc.body {
         Body::Struct(f) => {
             let semi = !matches!(f, FieldsDoc::Named(_));
             r.fields(f);
             if semi {
+                if !wh.is_empty() && tuple_struct {
+                    r.push(" ");
+                    r.push(&wh);
+                }
                 r.push(";");
             }
         }
